@@ -332,6 +332,18 @@ def semantic_variants(case, info, rnd, extent=None):
         out.append(c)
     for _ in range(2):
         insert(rnd.choice(['  zzq 5', '  qqz', '  zzq a, 3', '  .bite 5', '  .fil 2, 1']), 'E2-unknown-instruction')
+    # an unknown instruction / a statement no variant accepts that FOLLOWS a directive on the same line
+    insert(rnd.choice(['  .memzone GLOBAL zzq 5', '  .memzone GLOBAL qqz', '  .org $10 zzq 5', '  .align 2 zzq',
+                       '  .memzone GLOBAL nop 1, 2, 3']), 'E2-unknown-instruction-after-directive')
+    # E1: a local label of the region before a file-scope label, referenced after it (a `_name:` label starts a
+    # new region just like a global one)
+    c = copy.deepcopy(case)
+    pos = rnd.randrange(0, n)
+    # (one multi-line injection: the minimiser must not be able to take the setup away from the reference)
+    c['inject'] = {'pos': pos, 'line': 'gq9:\n.lq9:\n  .byte 1\n_fq9:\n' + rnd.choice(['  .2byte .lq9', '  .byte LSB(.lq9)'])}
+    c['expect_fail'] = 'E1-local-label-of-earlier-region-after-file-label'
+    c['mutation'] = {'kind': 'E1-region'}
+    out.append(c)
     # the offending statement as the very last line of a file that does not end with a newline
     for line, tag in ((rnd.choice(e1_forms[:3]), 'E1-unresolved-label'), ('  zzq 5', 'E2-unknown-instruction')):
         c = copy.deepcopy(case)
